@@ -14,6 +14,11 @@ class TaskFailed(Exception):
     pass
 
 
+class TaskCrashed(BaseException):
+    """Injected crash: the task (a worker process) is killed at one of its
+    yield points; whatever it had written so far stays on the simulated disk."""
+
+
 class _Task(object):
     __slots__ = ("tid", "fn", "thread", "go", "done", "exc", "steps")
 
@@ -103,8 +108,10 @@ class ExplicitPolicy(object):
 
 
 class Baton(object):
-    def __init__(self, policy, max_steps=5000000):
+    def __init__(self, policy, max_steps=5000000, crash=None):
         self.policy = policy
+        self.crash = dict(crash or {})  # {task id: kill at its n-th yield point}
+        self.crashed = []
         self.tasks = {}
         self.lock = threading.Lock()
         self.sched_evt = threading.Event()
@@ -123,6 +130,12 @@ class Baton(object):
             return  # not a scheduled task (harness thread): no pre-emption
         if self.aborted:
             raise TaskFailed("aborted")
+        if tid in self.crash:
+            me_ = self.tasks[tid]
+            me_.steps += 1
+            if me_.steps == self.crash[tid]:
+                self.crashed.append((tid, op, path))
+                raise TaskCrashed("killed at yield point %d (%s %s)" % (me_.steps, op, path))
         self.step += 1
         if self.step > self.max_steps:
             self.aborted = True
